@@ -120,6 +120,14 @@ void restore_context (error_context_t * econ) {
   pop_n_elems (sp - econ->save_sp);
 }
 
+static volatile int in_error = 0;
+static volatile int in_mudlib_error_handler = 0;
+#ifdef LOG_CATCHES
+/* the catch that master::error_handler() is reporting to, and the limit-error state of the reported error */
+static error_context_t *volatile reported_context = 0;
+static volatile int reported_limit_state = 0;
+#endif
+
 /**
  * @brief error() has been "fixed" so that users can catch and throw them.
  * To catch them nicely, we really have to provide decent error information.
@@ -130,19 +138,24 @@ void restore_context (error_context_t * econ) {
 void throw_error () {
   if (current_error_context && ((current_error_context->save_csp + 1)->framekind & FRAME_MASK) == FRAME_CATCH)
     {
+      /* like error_handler(): we may be going to longjmp() out of load_object() (a create()
+       * that throws) or destruct_object() (a move_or_destruct() that throws) */
+      reset_destruct_object_limits();
+      reset_load_object_limits();
+#ifdef LOG_CATCHES
+      if (in_mudlib_error_handler && current_error_context == reported_context)
+        {
+          /* master::error_handler() throws while it reports an error to this catch: we are
+           * leaving the handler. The catch decides about the reported error. */
+          in_mudlib_error_handler = 0;
+          set_error_state (reported_limit_state);
+        }
+#endif
       /* error string in catch_value */
       longjmp (current_error_context->context, 1);
     }
   error ("*Throw with no catch.");
 }
-
-static volatile int in_error = 0;
-static volatile int in_mudlib_error_handler = 0;
-#ifdef LOG_CATCHES
-/* the catch that master::error_handler() is reporting to, and the limit-error state of the reported error */
-static error_context_t *volatile reported_context = 0;
-static volatile int reported_limit_state = 0;
-#endif
 
 static void debug_message_with_location (const char *err) {
   if (current_object && current_prog)
